@@ -235,12 +235,12 @@ def emit_heap_frames(c, I, S, ctx, tagsof):
         if w[0] in ("field", "list", "dict", "sdict", "cell", "set") and not any(w[1] is m for m in mods):
             bad.append(f"{w[0]}:{getattr(w[1], 'label', None) or w[1]!r}" + (f".{w[2]}" if len(w) > 2 else ""))
     inf = tagsof("frame:heap")
-    inf["tags"] = sorted(set(inf["tags"]) | set(c.all_props()))
+    inf["tags"] = sorted(set(inf["tags"]) | set(c.all_props()) | {"C13", "C19"})
     inf["undeclared_writes"] = sorted(set(bad))
     ctx.oblige(f"{c.qualname}:frame:writes-within-modifies", z3.BoolVal(not bad), kind="frame", info=inf)
     hr = sorted({f"{getattr(w[1], 'label', None) or w[1]!r}.{w[2]}" for w in ctx.writes if w[0] == "hidden-read"})
     inf = tagsof("frame:heap")
-    inf["tags"] = sorted(set(inf["tags"]) | set(c.all_props()))
+    inf["tags"] = sorted(set(inf["tags"]) | set(c.all_props()) | {"C13", "C19"})
     inf["hidden_state_read"] = hr
     ctx.oblige(f"{c.qualname}:frame:reads-no-hidden-mutable-state", z3.BoolVal(not hr), kind="frame", info=inf)
     # global heap frame (C19): class attributes / module globals written on this path
@@ -273,6 +273,7 @@ def verify_contract(repo, c, variant, policy=None, path_timeout_ms=2000, max_pat
         _B.INF_SYMBOL = None
         if concrete is not None:
             I.ext_state["concrete"] = concrete
+            ctx.expand = True
         S = c.setup(I, variant)
         S.variant = variant
         S.callsite = False
